@@ -520,6 +520,29 @@ def _():
     return G.emit_strings('p_decode', rows, 'public decoders (pinned shape)')
 
 
+@item('p_shapes')
+def _():
+    """shape / dtype relevant call sites (pinned shape): the squeeze in rotate_to, index dtype conversions, null indices, loss tensors"""
+    rows = []
+    f = find_func(VQ, 'rotate_to')
+    sq = [n for n in ast.walk(f) if isinstance(n, ast.Call) and isinstance(n.func, ast.Attribute) and n.func.attr == 'squeeze']
+    if len(sq) != 1:
+        raise GenError('rotate_to: expected exactly one squeeze call')
+    rows.append('rotate_to.squeeze_args=' + ', '.join(ast.unparse(a) for a in sq[0].args) + '|' + ', '.join(f'{k.arg}={ast.unparse(k.value)}' for k in sq[0].keywords))
+    rows.append('rotate_to.pack=' + ast.unparse(assigned_expr(VQ, 'rotate_to', '(src, inverse)')))
+    rows.append('rotate_to.return=' + ast.unparse(return_expr(VQ, 'rotate_to')))
+    rows.append('rotation.e=' + ast.unparse(assigned_expr(VQ, 'efficient_rotation_trick_transform', 'e')))
+    rows.append('fsq.index_dtype=' + ast.unparse(return_expr(FSQF, 'FSQ.codes_to_indices')))
+    rows.append('lq.index_dtype=' + ast.unparse(return_expr(LQ, 'LatentQuantize.codes_to_indices')))
+    rows.append('lfq.indices=' + ast.unparse(assigned_expr(LFQF, 'LFQ.forward', 'indices', 0)))
+    for fname, cls in ((RVQ, 'ResidualVQ'), (RFSQ, 'ResidualFSQ'), (RLFQ, 'ResidualLFQ'), (RSVQ, 'ResidualSimVQ')):
+        g = find_func(fname, f'{cls}.forward')
+        rows += [f'{cls}.' + ast.unparse(n).replace('\n', ' ') for n in ast.walk(g) if isinstance(n, ast.Assign) and ast.unparse(n.targets[0]) in ('null_indices', 'null_loss', 'null_indices_shape')]
+    g = find_func(VQ, 'VectorQuantize.forward')
+    rows += ['vq.' + ast.unparse(n) for n in ast.walk(g) if isinstance(n, ast.Assign) and ast.unparse(n.targets[0]) in ('only_one', 'loss') and ('torch.tensor' in ast.unparse(n.value) or 'ndim' in ast.unparse(n.value))]
+    return G.emit_strings('p_shapes', rows, 'shape / dtype call sites (pinned shape)')
+
+
 # =============================================================================== inventories (G4)
 for fname, cls, tag in ((VQ, 'EuclideanCodebook', 'euclid'), (VQ, 'CosineSimCodebook', 'cosine'), (VQ, 'VectorQuantize', 'vq'),
                         (FSQF, 'FSQ', 'fsq'), (LFQF, 'LFQ', 'lfq'), (SIMVQ, 'SimVQ', 'simvq'), (RPQ, 'RandomProjectionQuantizer', 'rpq'),
